@@ -1817,6 +1817,13 @@ class BaseEvolutionOperations(object):
                 cursor.close()
 
             for index_name, info in six.iteritems(constraints):
+                if ((info.get('check') or info.get('foreign_key')) and
+                    not info.get('index') and
+                    not info.get('unique')):
+                    # A CHECK or FOREIGN KEY constraint over a column is
+                    # not an index on that column.
+                    continue
+
                 results[index_name] = {
                     'unique': info.get('unique', False),
                     'columns': info.get('columns', []),
